@@ -241,3 +241,69 @@ package keeper
 //@   walk 4 invariant len(batchInfos) == $i
 //@   walk 4 invariant forall u int :: 0 <= u && u < $i ==> BatchInfos[$key(u)] == Some(batchInfos[u])
 //@   assigns \nothing
+
+// ---- genesis import (C16): into a fresh store, from an export of a reachable state --------------------------
+
+//@ func (Keeper) GetNextBatchInfoIndex
+//@   requires forall i uint64 :: BatchInfos[(bridgeId, i)] != None ==> i < 18446744073709551615                                              // A-CTR
+//@   ensures err == nil                                                                                                                     // A-STORE
+//@   ensures forall i uint64 :: BatchInfos[(bridgeId, i)] != None ==> i < batchInfoIndex                                                     // C16: above_every_recorded_index
+//@   ensures batchInfoIndex == 0 || BatchInfos[(bridgeId, batchInfoIndex - 1)] != None                                                      // C16: one_past_the_last_recorded_index
+//@   walk 0 invariant $i == 0 && batchInfoIndex == 0
+//@   assigns \nothing
+
+//@ func (Keeper) InitGenesis
+//@   let bs := data.Bridges
+//@   requires forall b uint64 :: BridgeConfigs[b] == None && NextL1Sequences[b] == None && NextOutputIndexes[b] == None                       // import into a fresh store
+//@   requires forall k `(Pair Int Int)` :: OutputProposals[k] == None && BatchInfos[k] == None
+//@   requires forall k `(Pair Int Bytes)` :: ProvenWithdrawals[k] == None && TokenPairs[k] == None
+//@   requires forall i int, j int :: 0 <= i && i < j && j < len(bs) ==> bs[i].BridgeId != bs[j].BridgeId                                      // an export lists every bridge once
+//@   requires forall t int :: 0 <= t && t < len(bs) ==> (forall i int, j int :: 0 <= i && i < j && j < len(bs[t].Proposals) ==> bs[t].Proposals[i].OutputIndex != bs[t].Proposals[j].OutputIndex)
+//@   requires forall t int :: 0 <= t && t < len(bs) ==> (forall i int, j int :: 0 <= i && i < j && j < len(bs[t].TokenPairs) ==> bs[t].TokenPairs[i].L2Denom != bs[t].TokenPairs[j].L2Denom)
+//@   requires forall t int :: 0 <= t && t < len(bs) ==> (forall u int :: 0 <= u && u < len(bs[t].ProvenWithdrawals) ==> len(bs[t].ProvenWithdrawals[u]) == 32)   // INV_CLAIM
+//@   ensures Params == Some(data.Params) && NextBridgeId == data.NextBridgeId                                                                // C16: params_and_next_bridge_id_imported
+//@   ensures forall t int :: 0 <= t && t < len(bs) ==> BridgeConfigs[bs[t].BridgeId] == Some(bs[t].BridgeConfig)
+//@        && NextL1Sequences[bs[t].BridgeId] == Some(bs[t].NextL1Sequence) && NextOutputIndexes[bs[t].BridgeId] == Some(bs[t].NextOutputIndex)  // C16: config_and_counters_imported
+//@   ensures forall b uint64 :: BridgeConfigs[b] != None ==> (exists t int :: 0 <= t && t < len(bs) && bs[t].BridgeId == b)                    // C16: no_other_bridge_imported
+//@   ensures forall t int :: 0 <= t && t < len(bs) ==> (forall u int :: 0 <= u && u < len(bs[t].Proposals) ==>
+//@        OutputProposals[(bs[t].BridgeId, bs[t].Proposals[u].OutputIndex)] == Some(bs[t].Proposals[u].OutputProposal))                       // C16: outputs_imported_under_their_index
+//@   ensures forall t int :: 0 <= t && t < len(bs) ==> (forall u int :: 0 <= u && u < len(bs[t].TokenPairs) ==>
+//@        TokenPairs[(bs[t].BridgeId, bs[t].TokenPairs[u].L2Denom)] == Some(bs[t].TokenPairs[u].L1Denom))                                     // C16: token_pairs_imported
+//@   ensures forall t int :: 0 <= t && t < len(bs) ==> (forall u int :: 0 <= u && u < len(bs[t].ProvenWithdrawals) ==>
+//@        ProvenWithdrawals[(bs[t].BridgeId, bs[t].ProvenWithdrawals[u])] != None)                                                           // C16: claim_records_imported
+//@   ensures forall t int :: 0 <= t && t < len(bs) ==> (forall u int :: 0 <= u && u < len(bs[t].BatchInfos) ==>
+//@        BatchInfos[(bs[t].BridgeId, u)] == Some(bs[t].BatchInfos[u]))                                                                      // C16: batch_infos_imported_in_order
+//   outer loop over the bridges ($i0 inside the inner loops is the index of the current bridge)
+//@   loop 0 invariant 0 <= $i && $i <= len(bs)
+//@   loop 0 invariant Params == Some(data.Params)
+//@   loop 0 invariant forall t int :: 0 <= t && t < $i ==> BridgeConfigs[bs[t].BridgeId] == Some(bs[t].BridgeConfig)
+//@        && NextL1Sequences[bs[t].BridgeId] == Some(bs[t].NextL1Sequence) && NextOutputIndexes[bs[t].BridgeId] == Some(bs[t].NextOutputIndex)
+//@   loop 0 invariant forall b uint64 :: BridgeConfigs[b] != None || NextL1Sequences[b] != None || NextOutputIndexes[b] != None ==> (exists t int :: 0 <= t && t < $i && bs[t].BridgeId == b)
+//@   loop 0 invariant forall t int :: $i <= t && t < len(bs) ==> (forall i uint64 :: BatchInfos[(bs[t].BridgeId, i)] == None)
+//@   loop 0 invariant forall t int :: 0 <= t && t < $i ==> (forall u int :: 0 <= u && u < len(bs[t].Proposals) ==>
+//@        OutputProposals[(bs[t].BridgeId, bs[t].Proposals[u].OutputIndex)] == Some(bs[t].Proposals[u].OutputProposal))
+//@   loop 0 invariant forall t int :: 0 <= t && t < $i ==> (forall u int :: 0 <= u && u < len(bs[t].TokenPairs) ==>
+//@        TokenPairs[(bs[t].BridgeId, bs[t].TokenPairs[u].L2Denom)] == Some(bs[t].TokenPairs[u].L1Denom))
+//@   loop 0 invariant forall t int :: 0 <= t && t < $i ==> (forall u int :: 0 <= u && u < len(bs[t].ProvenWithdrawals) ==>
+//@        ProvenWithdrawals[(bs[t].BridgeId, bs[t].ProvenWithdrawals[u])] != None)
+//@   loop 0 invariant forall t int :: 0 <= t && t < $i ==> (forall u int :: 0 <= u && u < len(bs[t].BatchInfos) ==>
+//@        BatchInfos[(bs[t].BridgeId, u)] == Some(bs[t].BatchInfos[u]))
+//   loop 1: output proposals of the current bridge (writes OutputProposals only)
+//@   loop 1 invariant 0 <= $i && $i <= len(bridge.Proposals)
+//@   loop 1 invariant forall t int :: 0 <= t && t <= $i0 ==> (forall u int :: 0 <= u && u < (t == $i0 ? $i : len(bs[t].Proposals)) ==>
+//@        OutputProposals[(bs[t].BridgeId, bs[t].Proposals[u].OutputIndex)] == Some(bs[t].Proposals[u].OutputProposal))
+//   loop 2: claim records (writes ProvenWithdrawals only)
+//@   loop 2 invariant 0 <= $i && $i <= len(bridge.ProvenWithdrawals)
+//@   loop 2 invariant forall t int :: 0 <= t && t <= $i0 ==> (forall u int :: 0 <= u && u < (t == $i0 ? $i : len(bs[t].ProvenWithdrawals)) ==>
+//@        ProvenWithdrawals[(bs[t].BridgeId, bs[t].ProvenWithdrawals[u])] != None)
+//   loop 3: token pairs (writes TokenPairs only)
+//@   loop 3 invariant 0 <= $i && $i <= len(bridge.TokenPairs)
+//@   loop 3 invariant forall t int :: 0 <= t && t <= $i0 ==> (forall u int :: 0 <= u && u < (t == $i0 ? $i : len(bs[t].TokenPairs)) ==>
+//@        TokenPairs[(bs[t].BridgeId, bs[t].TokenPairs[u].L2Denom)] == Some(bs[t].TokenPairs[u].L1Denom))
+//   loop 4: batch infos, re-numbered from 0 in list order (writes BatchInfos only)
+//@   loop 4 invariant 0 <= $i && $i <= len(bridge.BatchInfos)
+//@   loop 4 invariant forall t int :: 0 <= t && t <= $i0 ==> (forall u int :: 0 <= u && u < (t == $i0 ? $i : len(bs[t].BatchInfos)) ==>
+//@        BatchInfos[(bs[t].BridgeId, u)] == Some(bs[t].BatchInfos[u]))
+//@   loop 4 invariant forall i uint64 :: i >= $i ==> BatchInfos[(bridgeId, i)] == None
+//@   loop 4 invariant forall t int :: $i0 < t && t < len(bs) ==> (forall i uint64 :: BatchInfos[(bs[t].BridgeId, i)] == None)
+//@   assigns \everything
